@@ -3,7 +3,7 @@
    address [base] for the api_* functions); "false" selects the repaired code (F12, F32). *)
 From PV.Model Require Import Machine VersionInfo.
 From PV.Spec Require Import TlvEnc.
-From PV.Proofs Require VersionInfoProofs.
+From PV.Proofs Require VersionInfoProofs VersionInfoRoundtrip VersionInfoQueries VersionInfoContain.
 Import VersionInfoProofs.
 
 (* (5) For every visitor (every implementation of the Visit trait, in particular the six built-in queries), every
@@ -128,12 +128,152 @@ Theorem C13_nonvacuous :
 Proof. exact VersionInfoProofs.demo_roundtrip. Qed.
 Print Assumptions C13_nonvacuous.
 
-(* OPEN: C13_events_roundtrip : forall tight v, vinfo_ok tight v = true -> all_events (encode tight v) = events_of v
-   (checked on every generated uncorrupted case by the oracle, and on demo_vi / f32_vi by computation) *)
-(* OPEN: C13_value_strings_file_info_of_events : forall base bytes evs lang key, bytes_len_ok bytes ->
-   api_events false 0 base bytes = Ok evs ->
-   api_value false lang key base bytes = Ok (spec_value lang key evs) /\
-   api_strings false lang base bytes = Ok (spec_strings lang evs) /\
-   (exists fi, api_file_info false false base bytes = Ok fi /\ fi_fixed fi = fixed_of evs /\
-      fi_langs fi = translation_of [] evs /\ dump_agrees evs (fi_strings fi) = true)
-   (evaluated by the oracle on the implementation's observations of every case) *)
+(* (2) the whole resource: for every abstract version resource the encoder can represent (every key NUL-free,
+   every block - root, StringFileInfo, VarFileInfo, unknown blocks, each StringTable, String and Var - shorter
+   than 65536 bytes, wLength being a u16) and both padding conventions, the report of its encoding is exactly
+   [events_of]: fixed info as stored, every block, every (table, key, value) once and in stored order with one
+   trailing NUL stripped, every variable with its words as stored *)
+Theorem C13_events_roundtrip : forall tight v, vinfo_ok tight v = true -> all_events (encode tight v) = events_of v.
+Proof. exact VersionInfoRoundtrip.events_roundtrip. Qed.
+Print Assumptions C13_events_roundtrip.
+
+(* the same through the API on the little-endian bytes at any 4-aligned address *)
+Theorem C13_events_roundtrip_bytes : forall tight v base, vinfo_ok tight v = true ->
+  Forall (fun w => w < 65536) (encode tight v) -> base mod 4 = 0 ->
+  api_events false 0 base (flat_map le16 (encode tight v)) = Ok (events_of v).
+Proof. exact VersionInfoRoundtrip.events_roundtrip_bytes. Qed.
+Print Assumptions C13_events_roundtrip_bytes.
+
+(* the round trip covers variables whose stored byte count is odd (wValueLength = 2n+1, the last byte being the low
+   half of one more word): the report holds the n whole words, for an even and an odd n, in both conventions *)
+Theorem C13_odd_byte_count_nonvacuous :
+  let odd_vi := VersionInfoRoundtrip.odd_vi in
+  vinfo_ok true odd_vi = true /\ vinfo_ok false odd_vi = true /\
+  word (skipn 22 (encode true odd_vi)) 1 = 5 /\ word (skipn 42 (encode true odd_vi)) 1 = 3 /\
+  api_events false 0 0 (flat_map le16 (encode true odd_vi)) =
+    Ok [EvVersion [86] None; EvEnter 0; EvFile VarFileInfo; EvEnter 1; EvVar Translation [1033; 1200]; EvVar [65] [5]; EvExit 1; EvExit 0] /\
+  api_events false 0 0 (flat_map le16 (encode false odd_vi)) = api_events false 0 0 (flat_map le16 (encode true odd_vi)) /\
+  api_translation false 0 (flat_map le16 (encode true odd_vi)) = Ok [(1033, 1200)].
+Proof. exact VersionInfoRoundtrip.odd_var_demo. Qed.
+Print Assumptions C13_odd_byte_count_nonvacuous.
+
+(* (3) value(lang, key), strings(lang) and file_info() are the stated functions of the reported events, although
+   these visitors skip the tables of other languages (and value() every block but StringFileInfo):
+   value = the last value reported under (lang, key), strings = the (key, value) pairs reported inside tables of
+   that language in order, file_info = the fixed info, the last Translation variable and a map that holds exactly
+   the languages of the reported tables and under each (language, key) the last reported value - tables of one
+   language merged (the F32 repair) *)
+Theorem C13_value_strings_file_info_of_events : forall base bytes evs lang key, bytes_len_ok bytes ->
+  api_events false 0 base bytes = Ok evs ->
+  api_value false lang key base bytes = Ok (spec_value lang key evs) /\
+  api_strings false lang base bytes = Ok (spec_strings lang evs) /\
+  (exists fi, api_file_info false false base bytes = Ok fi /\ fi_fixed fi = fixed_of evs /\
+     fi_langs fi = translation_of [] evs /\ dump_agrees evs (fi_strings fi) = true).
+Proof. exact VersionInfoQueries.value_strings_file_info_of_events. Qed.
+Print Assumptions C13_value_strings_file_info_of_events.
+
+(* (3) the single-value query, the per-language enumeration, the hash-map dump and the source-code rendering agree
+   with one another: they are four views of one report [evs] - source_code() renders it line by line, strings(lang)
+   lists its strings of that language, file_info().strings[lang] exists exactly when a table of that language is
+   reported and holds under each key the last value strings(lang) lists under it, and value(lang, key) is that
+   entry of the dump.  The last holds for every key without U+FFFD: a stored key with an unpaired surrogate is
+   reported as U+FFFD by strings()/file_info() and is never matched by value(), which compares char by char. *)
+Theorem C13_queries_agree : forall base bytes lang, bytes_len_ok bytes -> base mod 4 = 0 ->
+  exists evs strs fi,
+    api_events false 0 base bytes = Ok evs /\ api_strings false lang base bytes = Ok strs /\
+    api_file_info false false base bytes = Ok fi /\ api_source_code false base bytes = Ok (source_of evs) /\
+    strs = spec_strings lang evs /\
+    (forall k, dump_lookup (fi_strings fi) lang k = last_value list_eqb k None strs) /\
+    (hm_get lang_eqb lang (fi_strings fi) <> None <-> exists l, In (EvTable l) evs /\ lang_matches lang l = true) /\
+    (forall key, ~ In 65533 key -> api_value false lang key base bytes = Ok (dump_lookup (fi_strings fi) lang key)).
+Proof. exact VersionInfoQueries.queries_agree. Qed.
+Print Assumptions C13_queries_agree.
+
+(* the restriction is necessary: a stored key that is an unpaired surrogate is listed under U+FFFD, not found by value() *)
+Theorem C13_value_lookup_needs_no_fffd :
+  let bytes := flat_map le16 (encode true VersionInfoQueries.fffd_vi) in
+  api_value false (1033, 1200) [65533] 0 bytes = Ok None /\
+  match api_file_info false false 0 bytes with
+  | Ok fi => dump_lookup (fi_strings fi) (1033, 1200) [65533] = Some [49]
+  | _ => False
+  end.
+Proof. exact VersionInfoQueries.fffd_witness. Qed.
+Print Assumptions C13_value_lookup_needs_no_fffd.
+
+(* (4) containment, stronger form.  In the encoding of a well-formed resource, ONE string table [x] is replaced by
+   arbitrary words [g] of the same length (any corruption inside that table, its header included).  Whatever [g]
+   is, the report differs from the well-formed report [events_of v] only between the tables before [x] and the
+   end of that StringFileInfo block: the root, every other block and every earlier table with all its strings are
+   reported unchanged - the events before the malformed child are a prefix of the well-formed events.  If [g]
+   keeps the table's own wLength word, then either the enumeration of the tables ends there ([mid = []]), or [g] is
+   read as ONE table whose key, value and children are made of words of [g] only, followed by the unchanged
+   reports of all later tables: no string is attributed to another table. *)
+Theorem C13_corrupt_table_contained : forall tight key fixed bpre bpost tpre tpost x g,
+  let v := {| vi_key := key; vi_fixed := fixed; vi_blocks := bpre ++ BStrings (tpre ++ x :: tpost) :: bpost |} in
+  let frame mid :=
+    [EvVersion key (fixed_opt fixed); EvEnter 0] ++ flat_map block_events bpre ++
+    ([EvFile StringFileInfo; EvEnter 1] ++ flat_map table_events tpre ++ mid ++ [EvExit 1]) ++
+    flat_map block_events bpost ++ [EvExit 0] in
+  let corrupted :=
+    encode_blocks tight key fixed
+      (map (enc_block tight) bpre ++
+       enc_strings_block tight (map (enc_table tight) tpre ++ g :: map (enc_table tight) tpost) ::
+       map (enc_block tight) bpost) in
+  vinfo_ok tight v = true -> lenN g = lenN (enc_table tight x) ->
+  events_of v = frame (table_events x ++ flat_map table_events tpost) /\
+  exists mid, all_events corrupted = frame mid /\
+    (word g 0 = word (enc_table tight x) 0 ->
+     mid = [] \/
+     exists t, mid = ev_table t ++ flat_map table_events tpost /\
+       (exists a b, g = a ++ t_key t ++ b) /\ (exists a b, g = a ++ t_value t ++ b) /\ (exists a, g = a ++ t_children t)).
+Proof. exact VersionInfoContain.corrupt_table_contained. Qed.
+Print Assumptions C13_corrupt_table_contained.
+
+(* non-vacuity of (4): both outcomes occur in the resource of F32 (two tables of one language) - the first table
+   with a non-zero wValueLength ends the enumeration of the tables; with another first key character it is
+   reported under that key with its own strings and the second table is reported unchanged *)
+Theorem C13_corrupt_table_nonvacuous :
+  let t1 := VersionInfoContain.demo_t1 in let t2 := VersionInfoContain.demo_t2 in
+  let g1 := VersionInfoContain.demo_g1 in let g2 := VersionInfoContain.demo_g2 in
+  vinfo_ok false f32_vi = true /\ f32_vi = {| vi_key := [86; 83]; vi_fixed := []; vi_blocks := [] ++ BStrings ([] ++ t1 :: [t2]) :: [] |} /\
+  lenN g1 = lenN (enc_table false t1) /\ word g1 0 = word (enc_table false t1) 0 /\
+  lenN g2 = lenN (enc_table false t1) /\ word g2 0 = word (enc_table false t1) 0 /\
+  all_events (VersionInfoContain.corrupted false [86; 83] [] [] [] [] [t2] g1) = VersionInfoContain.frame [86; 83] [] [] [] [] [] /\
+  all_events (VersionInfoContain.corrupted false [86; 83] [] [] [] [] [t2] g2) =
+    VersionInfoContain.frame [86; 83] [] [] [] []
+      (table_events {| vt_key := 90 :: tl f32_lang; vt_strings := vt_strings t1 |} ++ table_events t2).
+Proof. exact VersionInfoContain.corrupt_demo. Qed.
+Print Assumptions C13_corrupt_table_nonvacuous.
+
+(* (4) the same one level down: ONE String [s] of a table (key [xk], strings [spre ++ s :: spost]) is replaced by
+   arbitrary words [g] of the same length.  The root, every other block, every other table with all its strings,
+   and the strings before [s] in its own table are reported unchanged.  If [g] keeps the String's wLength word,
+   either the enumeration of that table's strings ends there, or [g] is read as ONE string whose key and value
+   are made of words of [g] only, followed by the unchanged later strings: a malformed String is never
+   attributed to another key, table or language. *)
+Theorem C13_corrupt_string_contained : forall tight key fixed bpre bpost tpre tpost xk spre spost s g,
+  let x := {| vt_key := xk; vt_strings := spre ++ s :: spost |} in
+  let v := {| vi_key := key; vi_fixed := fixed; vi_blocks := bpre ++ BStrings (tpre ++ x :: tpost) :: bpost |} in
+  let frame mid :=
+    [EvVersion key (fixed_opt fixed); EvEnter 0] ++ flat_map block_events bpre ++
+    ([EvFile StringFileInfo; EvEnter 1] ++ flat_map table_events tpre ++
+     ([EvTable xk; EvEnter 2] ++ map string_event spre ++ mid ++ [EvExit 2]) ++
+     flat_map table_events tpost ++ [EvExit 1]) ++
+    flat_map block_events bpost ++ [EvExit 0] in
+  let corrupted :=
+    encode_blocks tight key fixed
+      (map (enc_block tight) bpre ++
+       enc_strings_block tight
+         (map (enc_table tight) tpre ++
+          enc_table_strings tight xk (map (enc_string tight) spre ++ g :: map (enc_string tight) spost) ::
+          map (enc_table tight) tpost) ::
+       map (enc_block tight) bpost) in
+  vinfo_ok tight v = true -> lenN g = lenN (enc_string tight s) ->
+  events_of v = frame (string_event s :: map string_event spost) /\
+  exists mid, all_events corrupted = frame mid /\
+    (word g 0 = word (enc_string tight s) 0 ->
+     mid = [] \/
+     exists t, mid = ev_string t :: map string_event spost /\
+       (exists a b, g = a ++ t_key t ++ b) /\ (exists a b, g = a ++ t_value t ++ b)).
+Proof. exact VersionInfoContain.corrupt_string_contained. Qed.
+Print Assumptions C13_corrupt_string_contained.
